@@ -62,6 +62,7 @@ var reviewedPanics = map[string]string{
 }
 
 func C07(p *core.Prog, r *core.Report) {
+	r.Rule("PUSH-POP", "in every parser-reachable function that calls (*pars.State).Push, every path from a Push to a return passes exactly one Pop or Drop (Clear closes all frames; `!state.Pushed()` means they are already closed): an error return that leaves the frame open makes pars.Any try its next alternative from the middle of the input", 13)
 	r.Rule("COMMIT", "the GenBank sub-parsers keep their reviewed commit points (state.Clear() turns a failure behind a recognised field name into a hard error instead of a backtracked one), and the feature-table parser only runs after one on every path", 4)
 	r.Rule("PANIC", "every explicit panic(...) statement in a function reachable from the parser entry points is in the reviewed table of panics whose condition input text cannot reach (one reason per function)", 2)
 	r.Rule("IDX", "every index and slice expression the Go compiler's prove pass cannot show in bounds (its bounds-check-elimination report, inlining off) inside code reachable from the parser entry points is discharged by a dominating length guard, the post-condition of an index search (IndexByte/Index), a range key over a collection of the same length, n = len(s)/2 on a non-empty s, or a reviewed layout/shape argument with a fixed site count; constant children of a pars.Result are determined by the parser's shape and excluded", 20)
@@ -255,6 +256,9 @@ func runTraps(p *core.Prog, r *core.Report, reach map[*ssa.Function]bool, parser
 			return true
 		})
 		t.advance(info, body, label)
+		if parser {
+			t.pushPop(info, body, label)
+		}
 		t.commit(info, body, label, clears)
 	}
 	for fn, want := range commitPoints {
@@ -471,6 +475,93 @@ func (t *trapCtx) advance(info *types.Info, body *ast.BlockStmt, label string) {
 		} else {
 			r.Ok("REQ-ADV", key, p.Pos(c.Pos()), "every path to this Advance passed a Request/Next whose error was tested nil")
 		}
+	}
+}
+
+// pushPop decides PUSH-POP for one body: the backtracking frame a function
+// opens with state.Push() is closed by exactly one state.Pop() or state.Drop()
+// on every path to a return (state.Clear() closes all of them). A frame left
+// open on an error return makes the enclosing pars.Any resume the next
+// alternative in the middle of the input instead of at its start.
+func (t *trapCtx) pushPop(info *types.Info, body *ast.BlockStmt, label string) {
+	p, r := t.p, t.r
+	var pushes []*ast.CallExpr
+	ast.Inspect(body, func(n ast.Node) bool {
+		if fl, ok := n.(*ast.FuncLit); ok && fl.Body != body {
+			return false
+		}
+		if c, ok := n.(*ast.CallExpr); ok && core.IsCallTo(info, c, parsPkg+".State.Push") {
+			pushes = append(pushes, c)
+		}
+		return true
+	})
+	if len(pushes) == 0 {
+		return
+	}
+	fl := core.NewFlow(info, body)
+	type leak struct {
+		pos   token.Pos
+		depth int
+	}
+	leaks := map[token.Pos]int{}
+	under := map[token.Pos]bool{}
+	core.Scan(fl, fl.Entry(), 0, core.Stepper[int]{
+		Node: func(d int, n ast.Node) (int, bool) {
+			for _, c := range core.NodeCalls(n) {
+				switch {
+				case core.IsCallTo(info, c, parsPkg+".State.Push"):
+					if d < 3 {
+						d++
+					}
+				case core.IsCallTo(info, c, parsPkg+".State.Pop", parsPkg+".State.Drop"):
+					if d == 0 {
+						under[c.Pos()] = true
+					} else {
+						d--
+					}
+				case core.IsCallTo(info, c, parsPkg+".State.Clear"):
+					d = 0
+				}
+			}
+			return d, false
+		},
+		Edge: func(d int, cond ast.Expr, taken bool) int {
+			core.Facts(cond, taken, func(atom ast.Expr, val bool) {
+				if c, ok := ast.Unparen(atom).(*ast.CallExpr); ok && core.IsCallTo(info, c, parsPkg+".State.Pushed") && !val {
+					d = 0 // the stack was cleared underneath
+				}
+			})
+			return d
+		},
+		Exit: func(d int, b *cfg.Block, last ast.Node) {
+			if d != 0 {
+				pos := body.End()
+				if last != nil {
+					pos = last.Pos()
+				}
+				if leaks[pos] < d {
+					leaks[pos] = d
+				}
+			}
+		},
+	})
+	key := label + "|frames"
+	switch {
+	case len(leaks) > 0:
+		var ps []token.Pos
+		for q := range leaks {
+			ps = append(ps, q)
+		}
+		sort.Slice(ps, func(i, j int) bool { return ps[i] < ps[j] })
+		var where []string
+		for _, q := range ps {
+			where = append(where, p.Pos(q))
+		}
+		r.Bad("PUSH-POP", key, where[0], fmt.Sprintf("%d exit(s) leave a backtracking frame open (no Pop/Drop since the Push): %s; the enclosing alternative then resumes from the middle of the input and can accept a malformed text as a different, shorter one", len(ps), strings.Join(where, ", ")))
+	case len(under) > 0:
+		r.Bad("PUSH-POP", key, p.Pos(pushes[0].Pos()), "a Pop/Drop can run without an open frame of this function")
+	default:
+		r.Ok("PUSH-POP", key, p.Pos(pushes[0].Pos()), fmt.Sprintf("%d Push site(s), every path to a return closes the frame exactly once", len(pushes)))
 	}
 }
 
